@@ -172,7 +172,9 @@ def run(fx, rep):
             why = 'public constructor (host use)'
         elif b.raw.get('parent') and F.norm_path(b.raw['parent']) == 'cel_interpreter::context::Context::get_variable' and all('arg1' in x for x in name_terms):
             why = 'variable miss in the root scope (names the looked-up variable)'
-        elif b.raw.get('parent') and F.norm_path(b.raw['parent']) == 'cel_interpreter::objects::Value::resolve' and all('func_name' in x for x in name_terms):
+        elif np == 'cel_interpreter::context::Context::get_variable' and all('arg2' in x for x in name_terms):
+            why = 'variable miss in the root scope (names the looked-up variable)'
+        elif (np == 'cel_interpreter::objects::Value::resolve' or (b.raw.get('parent') and F.norm_path(b.raw['parent']) == 'cel_interpreter::objects::Value::resolve')) and all('func_name' in x for x in name_terms):
             why = 'function miss (names call.func_name)'
         key = re.sub(r'\{closure#\d+\}', '{closure}', np)
         rep.check(why is not None, 'R2', 'source/%s' % key, F.loc_of(s['span']), why or '',
